@@ -147,16 +147,20 @@ def extract(cfg, reaction, builder, tables, style="physical"):
             for pt in symmetrised(t):
                 by_outer.setdefault(outer_of(pt), collections.OrderedDict()).setdefault(t.topology, []).append(pt)
     else:
+        # the pinned implementation collects, per topology, the transitions with the same UNORDERED outer projections into one
+        # amplitude, names it after the first of them, and adds amplitudes of different topologies coherently when those
+        # NAMES carry the same index values (for thinned helicity sets the first transitions of two topologies may differ)
         for t in reaction.transitions:
-            k = unordered_key(t)
-            first_outer.setdefault((k, t.topology), outer_of(t))
-            by_outer.setdefault(k, collections.OrderedDict()).setdefault(t.topology, []).extend(symmetrised(t))
+            first_outer.setdefault((unordered_key(t), t.topology), outer_of(t))
+        for t in reaction.transitions:
+            fo = first_outer[(unordered_key(t), t.topology)]
+            by_outer.setdefault(fo, collections.OrderedDict()).setdefault(t.topology, []).extend(symmetrised(t))
     groups, chain_labels = [], {}
     for outer, by_topo in by_outer.items():
         amps = []
         for topo, pts in by_topo.items():
             base = create_amplitude_base(topo)
-            amp_symbol = base[first_outer[(outer, topo)]] if style != "physical" else base[outer]
+            amp_symbol = base[outer]
             chains = []
             for pt in pts:
                 nodes = []
@@ -281,6 +285,8 @@ def gen(seed, n, cases_prefix, nshards):
         c = mg.random_cfg(rng, rng.choice(names), unaligned=True)
         c["align"] = "none"
         c["permutate"] = False
+        if mg.same_node_identical_spinful(c["reaction"]):
+            c["keep"] = None  # (see modelgen.same_node_identical_spinful)
         cfgs.append(c)
     gen_cfgs(cfgs, cases_prefix, nshards)
 
